@@ -2,6 +2,7 @@ import IrefVerif.Oracle
 import IrefVerif.Model.Ops
 import IrefVerif.Findings
 import IrefVerif.Model.Extra
+import IrefVerif.Model.RelClass
 
 /-!
 # Line-protocol driver
@@ -342,10 +343,12 @@ def opRelto (f : Fam) (a b : Text) (out : String) : String × String :=
           let v2 := firstFail [
             check (e == "1") "resolving the relative reference against b does not give a value equal to a (library equality)",
             check (key back == key a) "resolving the relative reference against b does not give a value equivalent to a"]
+          -- the theorem of C15 that speaks about this pair, for the evidence
+          let cls := " [cls:" ++ Model.relClass a b ++ "]"
           match v1, v2 with
-          | some m, _ => "FAIL " ++ m
-          | none, some m => if Findings.f12 a b then "FAIL " ++ m ++ " [KF:F12]" else "FAIL " ++ m
-          | none, none => "ok"
+          | some m, _ => "FAIL " ++ m ++ cls
+          | none, some m => if Findings.f12 a b then "FAIL " ++ m ++ " [KF:F12]" ++ cls else "FAIL " ++ m ++ cls
+          | none, none => "ok" ++ cls
         | _, _ => "FAIL " ++ out
       | _ => "FAIL " ++ out
   (m, o)
